@@ -8,7 +8,8 @@
 --   refv <field> <hasher> <q.b.g.x.f.r> <seed> <AirDesc line> <acceptable> <public inputs> <tag> <proof bytes hex>
 --       the EXECUTABLE REFERENCE VERIFIER (`refVerify` of Winter/Model/RefVerifier.lean) on exactly the bytes the
 --       real `verify` was given: `ok` | `parse-err` | `err:<VerifierError kind>` | `panic`.  Modelled for the
---       64-bit field with Rp64_256 and descriptions without auxiliary segment; `-` otherwise.
+--       64-bit field with Rp64_256 / RpJive64_256 and the 62-bit field with Rp62_248, descriptions with or without
+--       auxiliary segment (no Lagrange kernel column); `-` otherwise.
 --       <acceptable> = `os:<q.b.g.x.f.r>[,..]` (OptionSet) | `mc:<bits>` (MinConjecturedSecurity)
 -- The mutation families (`flips`, `bytes`, `fields`, `resize`, `sresize`, `reorder`, `remainder`, `partitions`,
 -- `nonces`, `extras`) run the real verifier and are judged by the harness's oracle; the model answers `-`.
@@ -85,13 +86,14 @@ def pubsOf (s : String) : Option (List Nat) :=
   if s = "-" then some [] else (s.splitOn ",").mapM parseNat
 
 def handleRefv (f h desc acc pubs bytes : String) : String :=
-  if f ≠ "f64" ∨ h ≠ "rp64_256" then "-"
-  else
+  match RefVerifier.instOf f h with
+  | none => "-"
+  | some J =>
     match RefVerifier.parseDesc desc with
     | none => "-"
     | some d =>
       match acceptableOf acc, pubsOf pubs, unhex bytes with
-      | some a, some ps, some bs => (RefVerifier.refVerify d ps a bs).text
+      | some a, some ps, some bs => (RefVerifier.refVerify J d ps a bs).text
       | _, _, _ => "bad-op"
 
 def handle (toks : List String) : String :=
